@@ -1611,6 +1611,30 @@ class C18(Prop):
         return impl.startswith("AGREE ok")
 
 
+def _angle_then_paren(line):
+    """`a < ... > (`: a `<`, later a `>` at the same parenthesis depth that is directly followed by `(` - what the
+    parser may read as a template argument list in front of a call (shifts and comparisons nested in parentheses
+    between the two do not matter)"""
+    toks = re.findall(r"<<=|>>=|<<|>>|<=|>=|->|[A-Za-z_]\w*|\d[\w.]*|\S", line)
+    for i, t in enumerate(toks):
+        if t != "<":
+            continue
+        depth = 0
+        for j in range(i + 1, len(toks)):
+            u = toks[j]
+            if u in "([{":
+                depth += 1
+            elif u in ")]}":
+                depth -= 1
+                if depth < 0:
+                    break
+            elif u == ";" and depth == 0:
+                break
+            elif u == ">" and depth == 0 and j + 1 < len(toks) and toks[j + 1] == "(":
+                return True
+    return False
+
+
 class C04(Prop):
     id = "C04"
     gens = ["GenBindings", "GenNames", "GenSyntax", "GenLexer"]
@@ -1652,7 +1676,7 @@ class C04(Prop):
             # read as explicit template arguments, the chain fails to parse, or parses and fails later (not a constant
             # expression, call of a non-function): the reported line has the shape either way
             line = impl.split(" | ", 1)[1] if " | " in impl else ""
-            if re.search(r"<[^;<>]*>\s*\(", line):
+            if _angle_then_paren(line):
                 return "comparison-chain-read-as-template-arguments"
             if re.search(r"redefinition of '(\w+)' \| template<(?:typename \w+, )*typename \1(?:, typename \w+)*, typename \1\b", impl) or re.search(r"redefinition of '(\w+)' \| template<typename \1, typename \1", impl):
                 return "template-parameters-named-after-one-struct-twice"
@@ -1944,7 +1968,7 @@ class C01(Prop):
     def known_class(self, case, impl, model):
         if impl.startswith("REREAD-REJECTED"):
             line = impl.split(" | ", 1)[1] if " | " in impl else ""
-            if re.search(r"<[^;<>]*>\s*\(", line):
+            if _angle_then_paren(line):
                 return "comparison-chain-read-as-template-arguments"
         if model and re.match(r"DIFF global_\S+ word \d+: (3 vs 1|2 vs 0)$", model):
             return "volatile-global-through-typedef"
